@@ -27,10 +27,10 @@
    NOT proved (decided by the correspondence and the from-scratch oracle only,
    hence C01 stays partly `_partial`): the lower bound "scale >= scale of the
    last recomputation" (needs monotonicity of the bounding box in an ordered
-   field), and C01_combined_interp for histories with batched tells; the batch path of tell_many IS covered
+   field); the batch path of tell_many IS covered
    (Proofs/L1DBatch.v: it re-establishes all invariants from scratch). *)
 From Coq Require Import ZArith Lia.
-From AV Require Import Base.Prelude Model.L1D Proofs.L1DOrder Proofs.L1DMaps Proofs.L1DStruct Proofs.L1DLoss Proofs.L1DValues Proofs.L1DBatch Proofs.L1DCombined Proofs.L1DProofs.
+From AV Require Import Base.Prelude Model.L1D Proofs.L1DOrder Proofs.L1DMaps Proofs.L1DStruct Proofs.L1DLoss Proofs.L1DValues Proofs.L1DBatch Proofs.L1DCombined Proofs.L1DBatchTi Proofs.L1DBatchC Proofs.L1DProofs.
 
 Section C01.
   Variable num : Type.
@@ -101,16 +101,17 @@ Section C01.
        when k is the whole interval and the value was copied verbatim,
      OR infinite, and then there is no evaluated point at or left of k, or
        none at or right of k                                     ([COK]).
-     Histories with batched tell_many are not covered by this theorem
-     ([L1DStruct.legal]); for them the correspondence and the oracle decide. *)
+     Batched tells are covered: Proofs/L1DBatchTi.v proves that the rebuild
+     schedules every evaluated interval that contains pending points for
+     re-interpolation (the code repaired by /repo 5b2c94e). *)
   Theorem C01_combined_interp : OrdLaws ltb eqb -> forall h,
-    @L1DStruct.legal num add sub mul div ltb eqb zero one inf neg_inf is_nan is_inf round12 of_nat L P init h = true ->
+    legal init h = true ->
     forall k val, adj ltb (nbc (run init h)) k -> lget eqb k (losc (run init h)) = Some val ->
       COK sub mul div ltb eqb inf (nb (run init h)) (los (run init h)) k val.
   Proof.
     intros OL h Hl.
-    exact (@combined_inv num add sub mul div ltb eqb zero one inf neg_inf is_nan is_inf round12 of_nat L P OL h init
-             (sinv_init add sub mul div ltb eqb zero inf neg_inf is_nan is_inf round12 P)
+    exact (@combined_inv_full num add sub mul div ltb eqb zero one inf neg_inf is_nan is_inf round12 of_nat L P OL h init
+             (inv_init add sub mul div ltb eqb zero one inf neg_inf is_nan is_inf round12 L P)
              (@cinv_init num sub mul div ltb eqb zero inf neg_inf P) Hl).
   Qed.
 
